@@ -84,6 +84,20 @@ func c14EvalEncode(w *mc.W, cas c14Enc) {
 		if !bytes.Equal(nb, append(append([]byte{}, cs...), want...)) {
 			fail("nbytes-is-not-compactsize-n-then-bytes", fmt.Sprintf("%x", trunc(nb)))
 		}
+		// filter hash and header of every encoded set (also the ones whose N needs more than one byte)
+		{
+			wantFH := ref.DoubleSHA256(append(append([]byte{}, cs...), want...))
+			fh, err := builder.GetFilterHash(f)
+			if err != nil || ref.Hash32(fh) != wantFH {
+				fail("filter-hash-is-not-double-sha256-of-nbytes", fmt.Sprintf("N=%d", n))
+			}
+			prev := chainhash.Hash{0x12, 0x34}
+			hd, err := builder.MakeHeaderForFilter(f, prev)
+			wantHD := ref.DoubleSHA256(append(append([]byte{}, wantFH[:]...), prev[:]...))
+			if err != nil || ref.Hash32(hd) != wantHD {
+				fail("filter-header-is-not-double-sha256-of-hash-and-previous-header", fmt.Sprintf("N=%d", n))
+			}
+		}
 		if !bytes.Equal(pb, append([]byte{cas.P}, want...)) {
 			fail("pbytes-is-not-p-then-bytes", fmt.Sprintf("%x", trunc(pb)))
 		}
@@ -512,7 +526,7 @@ func runC14(c *mc.Ctx) {
 		encs = append(encs, c14Enc{Key: 1, P: uint8(p), M: 1 << uint(min(p, 32)), Count: 5})
 		encs = append(encs, c14Enc{Key: 1, P: uint8(p), M: 3 << uint(min(p, 32)), Count: 17})
 	}
-	for _, n := range []int{252, 253, 254, 65535, 65536} {
+	for _, n := range []int{127, 128, 129, 252, 253, 254, 16383, 16384, 65535, 65536} { // CompactSize and LEB128 boundaries of N
 		encs = append(encs, c14Enc{Key: 1, P: 19, M: 784931, Count: n})
 	}
 	if c.Thorough() {
